@@ -1,6 +1,7 @@
 """Shared by the relational properties C06, C07, C13, C14, C15: the naturality argument."""
 
-NAT_LEAN = ["PV.natural", "PV.lsa_unique", "PV.code_least_action", "PV.C03_unique", "PV.TB.natural", "PV.TB.code_least_action", "PV.TB.toMain"]
+NAT_LEAN = ["PV.natural", "PV.lsa_unique", "PV.code_least_action", "PV.C03_unique", "PV.TB.natural", "PV.TB.code_least_action", "PV.TB.toMain",
+            "PV.Inst.filt", "PV.Inst.blocks", "PV.Inst.twoBlocks", "PV.Inst.unperturbed", "PV.Inst.gapped", "PV.Inst.trivMainEqs", "PV.Inst.trivMainEqs2b"]
 NAT_LEAN_NH = ["PV.natural_nh", "PV.nh_unique", "PV.NH.code_least_action"]
 
 NAT_NOTE = (
